@@ -421,7 +421,7 @@ def _c16_runs(tier):
 
 PROPS["C16"] = dict(
     level="model_checking", runs=_c16_runs, engine="ICB",
-    rule="OpenMP build (gcc -fopenmp, header cache off per configure.ac's fragment) linked against a mini-GOMP runtime implemented on the deterministic scheduler (GOMP_parallel, GOMP_parallel_sections, GOMP_sections_next, GOMP_critical_name_start/end, omp_get_num_threads/thread_num; nested regions get a team of 1 like libgomp's default); scenarios: mzd_mul_mp / mzd_addmul_mp on shapes with remainder strips not multiple of 128 and cutoffs 64/128, mzd_mul_m4rm / mzd_addmul_m4rm / mzd_mul / mzd_echelonize_m4ri on shapes with > 512 rows (static chunks spread over threads), for team sizes {1,2,3,4,5,8,16} (quick) / every size 1..16 (thorough); the multi-core front ends on all 8 patterns of 'dimension is / is not a multiple of 128' (m, l, n); triangular solves (4 variants), triangular inversion, PLUQ-based elimination and Four-Russians inversion with > 512 rows, also in a min-cache OpenMP build where their cache-derived recursion thresholds are crossed; plus, in a min-cache OpenMP build, the multi-core products started from a NON-INITIAL allocator state (block cache full of large blocks, eviction index advanced) for teams 2..4(5); scheduling points: region fork (who runs first), every GOMP_sections_next (which thread gets which section), every critical(mmc) entry, writes to static storage outside critical sections, thread end / join; teams of 2-3: ALL schedules with at most 1 (thorough also 2) preemption(s); teams of 4-5: default schedule + every single deviation with ALL section-to-thread assignments; larger teams: default + every single deviation; on every execution: result == reference model (= sequential result), vector-clock happens-before race detection over every load/store (fork/join and critical release->acquire edges), deadlock detection; states = nodes of the explored schedule tree, transitions = scheduling decisions executed",
+    rule="OpenMP build (gcc -fopenmp, header cache off per configure.ac's fragment) linked against a mini-GOMP runtime implemented on the deterministic scheduler (GOMP_parallel, GOMP_parallel_sections, GOMP_sections_next, GOMP_critical_name_start/end, omp_get_num_threads/thread_num; nested regions get a team of 1 like libgomp's default); scenarios: mzd_mul_mp / mzd_addmul_mp on shapes with remainder strips not multiple of 128 and cutoffs 64/128, mzd_mul_m4rm / mzd_addmul_m4rm / mzd_mul / mzd_echelonize_m4ri on shapes with > 512 rows (static chunks spread over threads), for team sizes {1,2,3,4,5,8,16} (quick) / every size 1..16 (thorough); environments in which the runtime delivers fewer threads than omp_get_max_threads() or a num_threads clause ask for (thread limit 1..3 of 4, 2 of 16), and the front ends called from inside an application parallel region of 2 threads (library regions nested and serialised); the multi-core front ends on all 8 patterns of 'dimension is / is not a multiple of 128' (m, l, n); triangular solves (4 variants), triangular inversion, PLUQ-based elimination and Four-Russians inversion with > 512 rows, also in a min-cache OpenMP build where their cache-derived recursion thresholds are crossed; plus, in a min-cache OpenMP build, the multi-core products started from a NON-INITIAL allocator state (block cache full of large blocks, eviction index advanced) for teams 2..4(5); scheduling points: region fork (who runs first), every GOMP_sections_next (which thread gets which section), every critical(mmc) entry, writes to static storage outside critical sections, thread end / join; teams of 2-3: ALL schedules with at most 1 (thorough also 2) preemption(s); teams of 4-5: default schedule + every single deviation with ALL section-to-thread assignments; larger teams: default + every single deviation; on every execution: result == reference model (= sequential result), vector-clock happens-before race detection over every load/store (fork/join and critical release->acquire edges), deadlock detection; states = nodes of the explored schedule tree, transitions = scheduling decisions executed",
     level_text="Stateless model checking of the OpenMP build: a replacement OpenMP runtime owns every scheduling decision, all schedules within the bound are executed on the real library code, and each execution is checked for data races (happens-before), deadlock and bit-identical results.",
     level_note="libgomp itself is replaced, i.e. the real runtime's implementation of critical/barrier/sections is trusted, not checked. Bounded preemptions / deviations as stated; nested parallelism is serialised (team of 1).",
     technique="stateless model checking on the real code: preemption/deviation-bounded exhaustive schedule enumeration over a mini-OpenMP runtime + vector-clock race detection on every execution",
